@@ -97,6 +97,26 @@ func ScannerHelpers(w *World, rel string) *report.RuleResult {
 				}
 			}
 		}
+		if !setpos {
+			// setTokenPosition written out in place: the same stores it makes, for the skipped token
+			posE := "pkg/position.Pool.Get($recv.positionPool)"
+			same := func(field, want string) bool {
+				vs := st[field]
+				if len(vs) == 0 {
+					return false
+				}
+				for _, v := range vs {
+					if v != want {
+						return false
+					}
+				}
+				return true
+			}
+			setpos = same(posE+".StartPos", "$recv.ts") && same(posE+".EndPos", "$recv.te") &&
+				same(posE+".StartLine", rel+".NewLines.GetLine(&$recv.newLines, $recv.ts)") &&
+				same(posE+".EndLine", rel+".NewLines.GetLine(&$recv.newLines, ($recv.te-1))") &&
+				same(tk+".Position", posE)
+		}
 		res.Count("facts", 2)
 		res.Check(setpos, "addFreeFloatingToken/position", w.Pos(fn.Pos()), w.Name(fn), "position taken by setTokenPosition from ts/te", "the free-floating token does not get its position from setTokenPosition")
 		res.Check(appended == 1, "addFreeFloatingToken/append", w.Pos(fn.Pos()), w.Name(fn), "appended once to the token's FreeFloating list", fmt.Sprintf("the skipped token is appended %d times to FreeFloating", appended))
